@@ -244,7 +244,18 @@ const (
 	sortHash = 0
 	sortLWW  = 1
 	sortFWW  = 2
+	sortDist = 3 // a caller-supplied comparator that reports distances: only the sign of an EntrySortFn result is meaningful
 )
+
+// distanceOrder orders like last-write-wins but returns magnitudes (clock time difference, then twice the
+// byte comparison of the clock ids), as a hand-written comparator typically does.
+func distanceOrder(a, b iface.IPFSLogEntry) (int, error) {
+	ta, tb := a.GetClock().GetTime(), b.GetClock().GetTime()
+	if ta != tb {
+		return ta - tb, nil
+	}
+	return 2 * bytes.Compare(a.GetClock().GetID(), b.GetClock().GetID()), nil
+}
 
 func pickSort(k int) iface.EntrySortFn {
 	switch k {
@@ -252,6 +263,8 @@ func pickSort(k int) iface.EntrySortFn {
 		return sorting.LastWriteWins
 	case sortFWW:
 		return sorting.FirstWriteWins
+	case sortDist:
+		return distanceOrder
 	}
 	return sorting.SortByEntryHash
 }
